@@ -88,6 +88,9 @@ class FGen:
     def __init__(self, ch, dom, ft):
         self.ch, self.dom, self.ft = ch, dom, ft
         self.types = pddl.Types(dom["types"])
+        # in 4 cases of 10 the eliminable-looking equalities are over a difference, (= (- A B) 0): nothing to eliminate with
+        self.minus_eq = bool(ft.get("nested_monomials")) and ch.side("minus-eq").flag(0.4)
+        self.comp = ch.side("companion")
 
     def terms(self, scope, typ):
         out = [v for v, t in scope if self.types.is_sub(t, typ)]
@@ -190,7 +193,7 @@ class FGen:
                     c3 = self.fterm(scope)
                     if c3 is not None and c3 not in (ft, b):
                         r = c3
-                return ["=", ["+", ft, b], r]
+                return ["=", ["-" if self.minus_eq else "+", ft, b], r]
         if simple and self.ft.get("nested_monomials") and ch.flag(0.3):
             # simplifier-stable beyond (cmp fluent number): a fluent times one or two constants whose product has
             # <= 2 decimals (0.29 * 100 is 28.999999999999996 in floats), compared with another fluent (monomial)
@@ -254,6 +257,13 @@ class FGen:
             x = self.leaf(scope, simple_numeric)
             if x is not None:
                 out.append(x)
+        if simple_numeric and self.ft.get("nested_monomials"):
+            # an equality one could eliminate with is worth little alone: in 6 groups of 10 a comparison over one of
+            # its two fluents stands next to it
+            for x in list(out):
+                if x[0] == "=" and isinstance(x[1], list) and x[1][0] in ("+", "-") and self.comp.flag(0.6):
+                    out.append([self.comp.choice(["<", "<=", ">", ">="]), x[1][self.comp.choice([1, 1, 2])],
+                                self.comp.choice(["3", "-3", "0", "1.5", "-0.25", "12"])])
         return out
 
     def group(self, scope, depth=1):
@@ -437,6 +447,18 @@ def gen_domain(ch, ft=None):
                 while any(n in (ONAMES[k % len(ONAMES)] + "x" * (k // len(ONAMES)), f"ag{k}") for n, _ in objects):
                     k += 1
                 objects.append([f"ag{k}" if t == "agent" else ONAMES[k % len(ONAMES)] + "x" * (k // len(ONAMES)), t])
+    side = ch.side("domain-writing")
+    if dom["typed"]:
+        # names of the root type at the end of a typed list may be written bare: (?t - truck ?l - loc ?thing)
+        if side.flag(0.3):
+            dom["bare_tail"] = True
+        # the requirements are written in several legitimate ways (:adl implies :typing; the section may list more
+        # than is used, in any order); what is declared and checked does not depend on it
+        r = side.weighted([(13, None), (3, [":adl"]), (2, [":adl", ":fluents"]), (1, [":typing", ":strips"]),
+                           (1, [":strips", ":negative-preconditions", ":equality", ":typing", ":fluents",
+                                ":disjunctive-preconditions", ":universal-preconditions", ":conditional-effects"])])
+        if r is not None:
+            dom["requirements"] = r
     return dom, objects
 
 
